@@ -1231,3 +1231,51 @@ def r_storage_clear(F, R, cat=None):
                 where=b.where(), detail="emptying calls: %s" % (why or "none") +
                 ("" if ok else "; some path returns without one of them: elements survive the clear"))
     R.floor("R-RESET", "Storage::clear impls for std containers", n, 1)
+
+
+def r_merge_sources_may_be_empty(F, R, cat=None):
+    """merge_regions / reserve_regions / merge_capacity are handed arbitrary regions of the same
+    type -- fresh, cleared or filled -- and must not assume that a source holds anything: a lookup
+    at `len - k` in a container, without a dominating fact that it is non-empty, underflows and
+    panics for an empty source, so the merged region is never built.  Checked in those bodies and
+    in the private helpers inlined into them."""
+    from core import all_ctxs
+    from expr import operand_tree, nobb, facts_at, lin, show
+    from r_alloc import walk
+    names = ("merge_regions", "reserve_regions", "merge_capacity")
+    n = 0
+    for top in F.bodies.values():
+        if top.in_tests() or top.derived or top.kind == "Closure" or top.name not in names:
+            continue
+        n += 1
+        for ctx in all_ctxs(F, top):
+            for (bi, t) in ctx.body.calls():
+                tag = callee_tag(t.get("callee"))
+                if tag[1] not in ("index", "index_mut", "get_unchecked") or len(t["args"]) != 2:
+                    continue
+                recv = nobb(operand_tree(ctx, t["args"][0]))
+                pos = nobb(operand_tree(ctx, t["args"][1]))
+                if not (pos[0] == "bin" and pos[1] == "Sub" and pos[3][0] == "const" and str(pos[3][1]).isdigit() and int(pos[3][1]) >= 1):
+                    continue
+                ln = pos[2]
+                is_len = (ln[0] == "call" and ln[1][1] == "len" and ln[2] and ln[2][0] == recv) or \
+                    (ln[0] == "un" and ln[1] == "PtrMetadata")
+                if not is_len:
+                    continue
+                k = int(pos[3][1])
+                guarded = False
+                for f in facts_at(ctx, bi):
+                    x = nobb(f[1]) if isinstance(f[1], tuple) else f[1]
+                    y = nobb(f[2]) if len(f) > 2 and isinstance(f[2], tuple) else (f[2] if len(f) > 2 else None)
+                    if f[0] == "truthy" and f[2] is False and x[0] == "call" and x[1][1] == "is_empty" and x[2] and x[2][0] == recv:
+                        guarded = True
+                    if f[0] in ("Ne", "Gt", "Ge", "Lt", "Le") and (x == ln or y == ln):
+                        guarded = True  # some comparison of this very length dominates the lookup
+                R.saw(top)
+                R.check("R-FRESH", top.label(), guarded, construct="sources of a merge may be empty",
+                        where="%s:%s" % (ctx.body.file, t["line"]),
+                        detail="lookup at %s %s" % (show(pos)[:60], "under a test of that length" if guarded else
+                                                     "without a test that the container is non-empty: an empty (fresh or cleared) source "
+                                                     "underflows here and the merge panics"))
+    R.info("R-FRESH: %d merge/reserve bodies scanned for lookups at len - k in their sources" % n)
+    R.floor("R-FRESH", "merge/reserve bodies scanned for len - k lookups", n, 10)
